@@ -43,7 +43,7 @@ enum { X_BASE = EP_COUNT * 3,
        X_MUT0, /* 12 mutation kinds */
        X_F2_S0 = X_MUT0 + 12, X_F2_S0_REACHED, X_HALFAGG_OVERFLOW, X_BPPP_REJECT_AFTER_ALLOC, X_BPPP_REJECT_MID, X_REWIND_OK, X_REWIND_SMALLBUF,
        X_SURJ_BIG, X_WL_BIG, X_RP_BIG, X_SURJ_VERIFY_OK, X_WL_VERIFY_OK, X_NORM_OK, X_HONEST, X_MUSIG_CANCEL, X_SIG_FAILED_PARSE_CONSUMED,
-       X_SURJ_OUT_EQ_IN, X_LAX_ONLY_ACCEPT, X_TOTAL };
+       X_SURJ_OUT_EQ_IN, X_LAX_ONLY_ACCEPT, X_REENCODE, X_TOTAL };
 const char *const VF_CLASS_NAMES[] = {
 #define X(n) #n, #n ":nt", #n ":ok",
     EPS(X)
@@ -53,7 +53,7 @@ const char *const VF_CLASS_NAMES[] = {
     "mut:copyfield", "mut:insdel", "mut:tailover",
     "f2:sig_s0_parsed", "f2:s0_reaches_recover", "halfagg:overflow_counts", "bppp:reject_after_alloc", "bppp:reject_mid_list", "rewind:ok", "rewind:small_msgbuf",
     "surj:n>=255", "whitelist:n=255", "rangeproof:64bit", "surj:verify_ok", "whitelist:verify_ok", "norm:verify_ok", "honest_unmodified",
-    "musig:cancelling", "sig:failed_parse_consumed", "surj:output_equals_input", "lax:accepts_strict_rejects"
+    "musig:cancelling", "sig:failed_parse_consumed", "surj:output_equals_input", "lax:accepts_strict_rejects", "mut:count_reencoded_consistent_length"
 };
 const int VF_N_CLASSES = X_TOTAL;
 
@@ -662,6 +662,34 @@ static int field_off(const art_t *a, unsigned idx, size_t *off) {
     return *off + 32 <= Wn;
 }
 
+/* count re-encoding with a CONSISTENT total length (what an attacker would send; a lone count edit dies at the length check):
+ * surjection proof: n' inputs, bitmap of ceil(n'/8) bytes with the first m bits set and zero padding, e0 and m scalars taken from the artifact;
+ * whitelist signature: n' keys, e0 and n' scalars taken from the artifact. */
+static int cur_ac;
+static void reencode_count(const art_t *a, unsigned pos, unsigned v) {
+    static const unsigned short SN[16] = {0, 1, 7, 8, 9, 255, 256, 257, 258, 263, 264, 300, 511, 512, 4096, 65535};
+    static const unsigned char WN[8] = {0, 1, 2, 3, 127, 128, 254, 255};
+    size_t i, o;
+    if (cur_ac == AC_SURJ) {
+        size_t n = SN[v & 15], m = (v & 0x10) ? n : ((v & 0x20) ? 1 : 3), bl = (n + 7) / 8, src0 = (size_t)a->fbase, srcn = a->n - src0;
+        if (m > n) m = n;
+        if (2 + bl + 32 * (1 + m) > WMAX) { m = (WMAX - 2 - bl) / 32 - 1; if (m > n) m = n; }
+        if (2 + bl + 32 > WMAX) return;
+        W[0] = (unsigned char)n; W[1] = (unsigned char)(n >> 8);
+        memset(W + 2, 0, bl);
+        for (i = 0; i < m; i++) { size_t b = (pos & 0x400) ? n - 1 - i : i; W[2 + b / 8] |= (unsigned char)(1u << (b % 8)); }
+        o = 2 + bl;
+        for (i = 0; i < 32 * (1 + m); i++) W[o + i] = a->b[src0 + i % srcn];
+        Wn = o + 32 * (1 + m);
+    } else if (cur_ac == AC_WL) {
+        size_t n = WN[v & 7], srcn = a->n - 33;
+        W[0] = (unsigned char)n;
+        memcpy(W + 1, a->b + 1, 32);
+        for (i = 0; i < 32 * n; i++) W[33 + i] = srcn ? a->b[33 + i % srcn] : (unsigned char)i;
+        Wn = 33 + 32 * n;
+    }
+}
+
 static void mutate(const art_t *a, unsigned kind, unsigned pos, unsigned v, cur_t *tail) {
     size_t off, off2;
     kind %= 12;
@@ -672,7 +700,8 @@ static void mutate(const art_t *a, unsigned kind, unsigned pos, unsigned v, cur_
     case 2: if (v & 1) Wn = pos % (Wn + 1); else if (Wn) Wn -= 1 + (pos % (Wn < 40 ? Wn : 40)); break;
     case 3: { size_t add = 1 + pos % 64; if (Wn + add > WMAX) add = WMAX - Wn; memset(W + Wn, (int)v, add); Wn += add; break; }
     case 4:
-        if (a && a->nlen && Wn) { size_t o = (size_t)a->lenf[pos % (unsigned)a->nlen]; if (o < Wn) { if (pos & 0x100) W[o] = (unsigned char)v; else W[o] = (unsigned char)(W[o] + (int)(v % 9) - 4); } }
+        if (a && (pos & 0x200) && (cur_ac == AC_SURJ || cur_ac == AC_WL)) { vf_class(X_REENCODE); reencode_count(a, pos, v); }
+        else if (a && a->nlen && Wn) { size_t o = (size_t)a->lenf[pos % (unsigned)a->nlen]; if (o < Wn) { if (pos & 0x100) W[o] = (unsigned char)v; else W[o] = (unsigned char)(W[o] + (int)(v % 9) - 4); } }
         else if (Wn) W[pos % (Wn < 12 ? Wn : 12)] = (unsigned char)v;
         break;
     case 5: if (field_off(a, pos, &off)) boundary_value(W + off, v); break;
@@ -696,7 +725,7 @@ static const art_t *make_input(int ac, cur_t *c, unsigned recipe, unsigned ctl, 
     unsigned mode = ctl & 3, lenmode = (ctl >> 2) & 3, nm = (ctl >> 4) & 15, nmut = nm == 15 ? 0 : 1 + nm % 3, i;
     unsigned mk[3], mp[3], mv[3];
     for (i = 0; i < nmut; i++) { mk[i] = gb(c); mp[i] = gw(c); mv[i] = gb(c); }
-    honest = 0;
+    honest = 0; cur_ac = ac;
     recipe = wmap(ac, recipe);
     *rec = recipe;
     if (mode == 2) {
@@ -1166,7 +1195,10 @@ static void ep_surjection(cur_t *c, unsigned recipe, unsigned ctl, unsigned aux,
         if (honest) VF_CHECK(v == 1, "valid surjection proof rejected");
         if (nu > 16) return;
         if ((aux & 3) == 1 && nt >= 1) { vf_class(X_SURJ_OUT_EQ_IN); R(secp256k1_surjectionproof_verify(ctx, p, tags, nt, &tags[(aux >> 2) % nt])); }
-        if ((aux & 3) == 2 && nt >= 2) R(secp256k1_surjectionproof_verify(ctx, p, tags, nt - 1, &SURJ_OUT[rec]));   /* count mismatch with a real shorter array */
+        if ((aux & 3) == 2 && nt >= 2) {   /* count mismatch: an exact-size array that really is one tag shorter */
+            secp256k1_generator *fewer = (secp256k1_generator *)HC(SURJ_IN, (nt - 1) * sizeof(secp256k1_generator));
+            VF_CHECK(R(secp256k1_surjectionproof_verify(ctx, p, fewer, nt - 1, &SURJ_OUT[rec])) == 0, "surjection proof verified against a tag list of a different length");
+        }
     }
 }
 
@@ -1194,7 +1226,10 @@ static void ep_whitelist(cur_t *c, unsigned recipe, unsigned ctl, unsigned aux, 
         if (v) { vf_class(X_WL_VERIFY_OK); VF_CHECK(nk > 0, "whitelist_verify accepted a signature for an empty key list"); }
         if (honest) VF_CHECK(v == 1, "valid whitelist signature rejected");
         if (nk > 8) return;
-        if ((aux & 3) == 1 && nk >= 2) R(secp256k1_whitelist_verify(ctx, s, on, off, nk - 1, &WL_SUB));
+        if ((aux & 3) == 1 && nk >= 2) {   /* count mismatch: exact-size arrays that really are one key shorter */
+            secp256k1_pubkey *on2 = (secp256k1_pubkey *)HC(WL_ON, (nk - 1) * sizeof(secp256k1_pubkey)), *off2 = (secp256k1_pubkey *)HC(WL_OFF, (nk - 1) * sizeof(secp256k1_pubkey));
+            VF_CHECK(R(secp256k1_whitelist_verify(ctx, s, on2, off2, nk - 1, &WL_SUB)) == 0, "whitelist signature verified against key lists of a different length");
+        }
         if ((aux & 3) == 2) R(secp256k1_whitelist_verify(ctx, s, on, off, nk, &PK[0]));
     }
 }
